@@ -95,6 +95,7 @@ type rangeScn struct {
 	base    uint32
 	id      int
 	cids    map[string][]byte
+	tscale  int     // > 1: times and durations are recorded in units of tscale seconds (values beyond 2^31 do not fit the checker)
 	dbq     string  // query part of the database argument (fault scenarios: a short busy timeout)
 	foreign *sql.DB // the environment's own connection to the lease database
 	fconn   *sql.Conn
@@ -282,6 +283,12 @@ func (s *rangeScn) req(mt dhcpv4.MessageType, id int, hostClass string) {
 	t0 := time.Now().Unix()
 	e := s.callHandler(s.h, mt, mac, hostClass)
 	t1 := time.Now().Unix()
+	if s.tscale > 1 {
+		t0, t1 = t0/int64(s.tscale), t1/int64(s.tscale)
+		if l, ok := e["lease"].(int); ok && l > 0 {
+			e["lease"] = l / s.tscale
+		}
+	}
 	e["ev"], e["type"], e["mac"], e["maclen"], e["host"], e["t0"], e["t1"] = "req", mt.String(), id, len(mac), hostClass, t0, t1
 	e["machex"] = mac.String()
 	s.t.Emit(e)
@@ -368,6 +375,9 @@ func (s *rangeScn) restartProbe(at string) {
 					}
 				}
 				idx, _ := s.idxOf(net.ParseIP(ip))
+				if s.tscale > 1 {
+					exp /= int64(s.tscale)
+				}
 				rows = append(rows, Ev{"m": id, "idx": idx, "expiry": exp, "raw": mac + " " + ip})
 			}
 			rs.Close()
@@ -408,7 +418,11 @@ func newRangeScn(t *Trace, dir string, id int, g rangeGeom, lease int, r *rand.R
 }
 
 func (s *rangeScn) begin() bool {
-	s.t.Emit(Ev{"ev": "reset", "N": s.g.n, "lease": s.lease, "geom": s.g.start + "-" + s.g.end, "probe": s.probe})
+	rl := s.lease
+	if s.tscale > 1 {
+		rl /= s.tscale
+	}
+	s.t.Emit(Ev{"ev": "reset", "N": s.g.n, "lease": rl, "geom": s.g.start + "-" + s.g.end, "probe": s.probe})
 	return s.setup(false)
 }
 
@@ -679,6 +693,13 @@ func runRange(args []string) error {
 			r := rand.New(rand.NewSource(*seed*15485863 + int64(k)))
 			s := newRangeScn(t, *dir, k, mkRangeGeom("10.0.0.9", 4), 1, r, true, &nsetup)
 			s.run(fixed[k])
+		}
+		// the other extreme: a lease of 900000 hours (it still fits option 51; its end lies beyond the year 2106) - times recorded in hours
+		if *shard == 0 {
+			r := rand.New(rand.NewSource(*seed * 32452843))
+			s := newRangeScn(t, *dir, 900, mkRangeGeom("10.0.0.9", 4), 900000*3600, r, true, &nsetup)
+			s.tscale = 3600
+			s.run([]string{"D0", "D1", "restart", "D0", "D2", "R1", "restart", "D3"})
 		}
 	case "fault":
 		// histories with ONE window in which the lease database cannot be written (somebody else's write
